@@ -36,7 +36,7 @@ def variant_forms(rng, spec):
     """vary the container / date forms of interval dictionaries; share one dictionary between two assets."""
     for a in spec['assets']:
         if rng.random() < 0.5:
-            a['_date_form'] = gen.pick(rng, ['datetime', 'timestamp', 'date'])
+            a['_date_form'] = gen.pick(rng, ['datetime', 'timestamp', 'date'] + (['aware_utc', 'aware_utc', 'aware_other'] if spec['grid'].get('tz') else []))
         if rng.random() < 0.3:
             a['_container'] = gen.pick(rng, ['dtindex', 'array', 'list', 'np_D', 'np_h', 'np_m', 'np_ns'])
     return spec
